@@ -1,5 +1,5 @@
 (* C02 — Built directories (plain and HAMT-sharded) behave as the map of their entries *)
-From UV Require Import Hamt.HashBits Hamt.HashBitsProofs Hamt.HashBitsSpec Hamt.Build Dir.Plain Dir.PlainProofs Dir.BuildProofs Base.Varint.
+From UV Require Import Hamt.HashBits Hamt.HashBitsProofs Hamt.HashBitsSpec Hamt.Build Hamt.Read Hamt.ShardDecode Hamt.Refine Dir.Plain Dir.PlainProofs Dir.BuildProofs Base.Varint.
 From Coq Require Import Permutation.
 Local Open Scope N_scope.
 
@@ -35,3 +35,29 @@ Theorem C02_plain_directory_is_map : forall entries, NoDup (map e_name entries) 
   /\ dir_length (plain_links entries) = Z.of_nat (length entries).
 Proof. exact plain_dir_is_map. Qed.
 Print Assumptions C02_plain_directory_is_map.
+
+(* sharded directories: for EVERY permitted fanout (8..1024), EVERY 8-byte name hash H and EVERY list of entries
+   with distinct non-empty names, what BuildUnixFSShardedDirectory wrote and NewUnixFSHAMTShard reads back is the
+   map of the entries: members resolve to their link, every other name is not-found, iteration yields each entry
+   exactly once under its un-prefixed name, and the length is the entry count *)
+Theorem C02_sharded_directory_is_map : forall size lg, permitted size lg ->
+  forall H : bytes -> bytes, (forall k, wf_bytes (H k) = true) -> (forall k, length (H k) = 8%nat) ->
+  forall entries root sz,
+  Forall (entry_ok H) entries -> NoDup (map e_name entries) ->
+  build_sharded size HashMurmur3 entries = Ok (root, sz) ->
+  (forall e, In e entries -> fst (Read.lookup nofault root (H (e_name e)) (e_name e)) = Ok (e_target e))
+  /\ (forall key, ~ In key (map e_name entries) -> fst (Read.lookup nofault root (H key) key) = Err ENotFound)
+  /\ Permutation (map snd (iterate nofault root)) (map yield_of entries)
+  /\ fst (shard_length nofault root) = Ok (N.of_nat (length entries)).
+Proof. exact sharded_dir_is_map. Qed.
+Print Assumptions C02_sharded_directory_is_map.
+
+(* the hypotheses are satisfiable: a fanout-8 directory with names colliding on the first levels *)
+Theorem C02_sharded_example :
+  permitted 8 3 /\ Forall (entry_ok demo_hash) demo_entries /\ NoDup (map e_name demo_entries)
+  /\ exists root sz, build_sharded 8 HashMurmur3 demo_entries = Ok (root, sz)
+     /\ fst (Read.lookup nofault root (demo_hash [65; 1]) [65; 1]) = Ok (Ext 3 36)
+     /\ fst (Read.lookup nofault root (demo_hash [65; 2]) [65; 2]) = Err ENotFound
+     /\ fst (shard_length nofault root) = Ok 5.
+Proof. exact demo_sharded_dir. Qed.
+Print Assumptions C02_sharded_example.
